@@ -27,11 +27,14 @@ RULE += (
     ' INTO a longer buffer; the same rule through RTCMReader.parse with correct framing and with a length'
     ' field that still announces the original size.'
 )
+RULE += (
+    " Also: the short payload offered to one non-validating stream reader behind the complete frame, framed with the complete frame's checksum bytes."
+)
 ASSUMPTIONS = [
     "shorter inputs than the identity header fall under C04",
     "4076_201 bodies with harmonic order M > N are skipped (layout undefined by the standard)",
 ]
-GATES = ["cuts_checked", "bumped_checked", "garbage_short_checked", "cut:inside-field", "cut:at-field-end",
+GATES = ["short_repeat_behind_complete_frame", "cuts_checked", "bumped_checked", "garbage_short_checked", "cut:inside-field", "cut:at-field-end",
          "cut:inside-counter-or-mask", "framed_rejected"]
 
 
@@ -48,7 +51,7 @@ def rep_of(payload):
     return ("bytes", "bytes", "bytes", "bytearray", "sub", "mview", "mslice", "mprefix")[zlib.crc32(payload) % 8]
 
 
-def must_reject_framed(ctx, identity, payload, why, params, full_len):
+def must_reject_framed(ctx, identity, payload, why, params, full_len, full=None):
     """The same rule through the static frame parser: correct framing of the short payload, and framing whose
     length field still announces the ORIGINAL size (trailer valid for the bytes present)."""
     from pyrtcm import RTCMReader
@@ -72,6 +75,25 @@ def must_reject_framed(ctx, identity, payload, why, params, full_len):
                           f"although {why}; returned {len(attrs)} attributes (last: {attrs[-3:]})",
                           dict(params, framed=label, validate=v))
             return False
+    if full is not None and len(full) <= 1023 and len(payload) >= 2:
+        # one stream reader, checksum validation off: the complete frame, then the short payload framed with the SAME
+        # checksum bytes (a repeat that lost its tail) - nothing may be returned as a message for the second frame
+        import io
+
+        f1 = refcrc.frame(full)
+        t = b"\xd3" + bytes([len(payload) >> 8, len(payload) & 0xFF]) + payload + f1[-3:]
+        try:
+            got = [(bytes(r), m) for r, m in RTCMReader(io.BytesIO(f1 + t), validate=0, quitonerror=0)]
+        except Exception:
+            got = []
+        ctx.hit("short_repeat_behind_complete_frame")
+        for r, m in got:
+            if r == t and m is not None:
+                ctx.violation("short-payload-accepted",
+                              f"{identity}: a stream reader (validate=0) returned a message for a frame whose payload of "
+                              f"{len(payload)} bytes is short ({why}), read behind the complete frame with the same "
+                              f"checksum bytes", dict(params, framed="reader-behind-complete"))
+                return False
     return True
 
 
@@ -176,7 +198,7 @@ def sweep(ctx, identity, vs, cs, ms, seedtag, pinned=False, word=None):
                 return
             ctx.hit("buffers_shortened_in_place")
         if ok and (ln % 3 == 0 or ln >= len(full) - 4):
-            ok = must_reject_framed(ctx, identity, p, why, dict(base, cutlen=ln), len(full))
+            ok = must_reject_framed(ctx, identity, p, why, dict(base, cutlen=ln), len(full), full)
         ctx.hit("cuts_checked")
         if not ok:
             return
